@@ -9,18 +9,6 @@ set_option linter.unusedSectionVars false
 namespace LL
 open Ak
 
-theorem run_error_cases {σ : Type} [DecidableEq σ] {G : Cfg σ} {toks : List (Tok σ)} :
-    ∀ (fuel : Nat) (st : List (Frame σ)) (e : Err), run G toks fuel st = .error e →
-      e = .outOfFuel ∨ e = .parsingError ∨ e = .indexError
-  | 0, _, e, h => by simp [run] at h; exact Or.inl h.symm
-  | fuel + 1, st, e, h => by
-    unfold run at h
-    split at h
-    · exact run_error_cases fuel _ e h
-    · simp at h
-    · simp at h; exact Or.inr (Or.inl h.symm)
-    · simp at h; exact Or.inr (Or.inr h.symm)
-
 theorem pvalid_of_gtree {terms : List Sym} {G : Prods Sym} (T : Table Sym) (S : List Sym) :
     ∀ (t : Tree Sym), GTree terms G t → PValid (cfgOf terms T S) { prods := gramRules G } t
   | .leaf n v, h => by
